@@ -89,9 +89,9 @@ def check(prog, ctx):
         ctx.decide('C18.a', '%s/%d' % (fn.name, len(fn.params)), fn, not probs,
                    'all randomness flows from parameter `%s` (closure of %d functions)' % (ep['name'], len(cl)), '; '.join(probs),
                    witness={'problems': probs} if probs else None)
-    domain(prog, ctx)
-    acceptance(prog, ctx)
-    counts(prog, ctx)
+    ctx.sub('domain', domain, prog, ctx)
+    ctx.sub('acceptance', acceptance, prog, ctx)
+    ctx.sub('counts', counts, prog, ctx)
 
 
 def uniform_args(prog, e):
